@@ -81,6 +81,7 @@ func encodeFunc(P *Program, CS *ContractSet, fn *ssa.Function, ct *Contract) *Fu
 				e.M = ModeBV
 			}
 			e.noSafety = ct.NoSafety
+			e.mathInts = ct.Mode == "math"
 		}
 		func() {
 			defer func() {
@@ -127,7 +128,9 @@ func (e *Enc) run() {
 		return
 	}
 	m := e.M
-	if m == ModeInt {
+	if m == ModeInt && e.mathInts {
+		e.assumptions["integers are unbounded mathematical integers in "+e.fnName+" (sound for the wrapped machine result only where the function uses ring operations; see contract note)"] = true
+	} else if m == ModeInt {
 		e.assumptions["machine integers of width 64 treated as mathematical integers (no wrap-around) in "+e.fnName] = true
 	}
 	// entry state
